@@ -502,11 +502,12 @@ def shrink_spec(ctx, prob, env=None, budget=150):
     spec, render = w.spec, w.render
     best, best_w = prob, w
     tries, progress = 0, True
-    while progress and tries < budget:
+    deadline = time.time() + 40          # shrinking is a convenience: never let it dominate the run
+    while progress and tries < budget and time.time() < deadline:
         progress = False
         for cand in spec_candidates(spec):
             tries += 1
-            if tries > budget:
+            if tries > budget or time.time() > deadline:
                 break
             w2 = render(w.tag, cand)
             ps, impl, _ = correspond(ctx, '_shrink', [w2], env, use_model=False)
@@ -529,7 +530,8 @@ def shrink(ctx, prob, env=None, budget=120):
     best = prob
     i = len(ops) - 1
     tries = 0
-    while i >= 1 and tries < budget:
+    deadline = time.time() + 40
+    while i >= 1 and tries < budget and time.time() < deadline:
         if ops[i].split(' ')[0] in ('mode',) and False:
             i -= 1
             continue
